@@ -53,7 +53,9 @@ def corrupt(rng, expr, pos):
             return None
         return op, expr[:i] + expr[i + 1:].replace('"', "")
     if op == "unknown-function":
-        return op, rng.choice(["(nosuchfn .)", "(lenn .arr)", "(Len .arr)", "(map2 .arr .)", "(. .)", "(1 2)"])
+        return op, rng.choice(["(nosuchfn .)", "(lenn .arr)", "(Len .arr)", "(map2 .arr .)", "(. .)", "(1 2)", "(..len .arr)", "(...len)", "(..array? .)",
+                               "(len. .arr)", "(.len. .arr)", "(l en .arr)", "(len\u00e9 .arr)", "(LEN .arr)", "(-len .arr)", "(_ .)", "(.. .)",
+                               "(map .arr (..len .))", "(? true (..size .arr) 0)"])
     if op == "arity-minus":
         f = rng.choice([f for f in BOUNDED if f["min"] >= 1])
         return op + ":" + f["name"], fname_call(f, f["min"] - 1)
@@ -122,6 +124,15 @@ def valid_config(rng):
             parts["selects"] = [".a=c0"]
     parts["style"] = style
     parts["extra"] = []
+    # limits are part of ordinary configurations (also the extreme --take 0: nothing will be printed, yet the configuration
+    # is validated like any other)
+    parts["limits"] = []
+    if rng.random() < 0.3:
+        parts["limits"] += ["--take", str(rng.choice((0, 0, 1, 5)))]
+    if rng.random() < 0.2:
+        parts["limits"] += ["--skip", str(rng.choice((0, 1, 3)))]
+    if rng.random() < 0.15:
+        parts["limits"] += ["--unique"]
     if style == "json" and rng.random() < 0.5:
         parts["extra"] = rng.choice([["--style", "pretty"], ["--utf8-strings"], ["--style", "consise"]])
     if style == "text" and rng.random() < 0.5:
@@ -130,7 +141,7 @@ def valid_config(rng):
 
 
 def to_args(parts):
-    a = ["-o", parts["style"]] + list(parts["extra"])
+    a = ["-o", parts["style"]] + list(parts["extra"]) + list(parts.get("limits", []))
     for s in parts["sets"]:
         a += ["--set", s]
     if parts["split"] is not None:
